@@ -3,8 +3,30 @@ from ..core import finish
 from ..wfrun import run_wf
 
 
+def extra_jobs(tier):
+    import sys
+    import ctparse.ctparse  # noqa
+    from ..core import fn_id
+    from ..e1 import Job
+    C = sys.modules["ctparse.ctparse"]
+    from ..harness.common import NPODS
+    nw = 2 if tier == "quick" else 3
+    return [Job("C02.PODTABLE", "vq.harness.h_latent", "ob_podtable", timeout=300, bounds="all {} entries of the part-of-day table (index symbolic): start and end hour in 0..23".format(NPODS),
+                functions=["ctparse.types.pod_hours (live table)"], site="pod_hours"),
+            Job("C02.SPAN-API", "vq.harness.h_api", "ob_embed", timeout=3600, path_timeout=120, env={"VQ_NWORDS": str(nw), "VQ_NTS": "1"},
+                bounds="12 expressions alone and embedded among 0..2 inert words each side, consecutive calls with the same reference time, latent on/off: the winner's span lies inside the text and delimits the expression",
+                functions=[fn_id(C.ctparse), fn_id(C.ctparse_gen)], stubs=["parser untraced; pool indices symbolic"], site="ctparse")]
+
+
 def run(tier, t0, only=None):
-    res, info = run_wf("C02", tier, only=only)
+    from concurrent.futures import ThreadPoolExecutor
+    from ..e1 import run_jobs
+    exj = [j for j in extra_jobs(tier) if not only or only in j.name]
+    with ThreadPoolExecutor(2) as ex:
+        f1 = ex.submit(run_wf, "C02", tier, None, (2024, 2), True, None, only)
+        f2 = ex.submit(run_jobs, exj, 2)
+        res, info = f1.result()
+        res += f2.result()
     return finish(
         "C02", tier, res, t0,
         assumptions=["regex engine contract: group texts are in the language of their group (ranges derived from the live pattern AST)",
